@@ -25,7 +25,7 @@ TRUSTED = ["Coq 8.16.1 kernel (coqc; coqchk in the thorough tier); vm_compute us
            "harness/store_hist.py (generator, implementation driver, snapshot), harness/check.py"]
 ASSUMPTIONS = ["operation set of the model: getPayloadRef(+write through the reference), getPayload, append, __setitem__, clear, "
                "updateCoords (affine maps +-c+k, i.e. injective: the documented 'unique not checked' domain), updatePayloads (p+k), "
-               "iterRangeShapeRef, getPosition/getPositionRef/getPayload/getPayloadRef with start_pos; fiber-valued mutators (argument fiber given as a tree literal of the matching depth with strictly increasing coordinates, built unowned with the leaf default at the leaf rank and default Fiber at interior ranks): append(c, fiber) and __setitem__(pos, fiber) on interior fibers, extend(fiber) and fiber <<= fiber at any rank; "
+               "iterRangeShapeRef, getPosition/getPositionRef/getPayload/getPayloadRef with start_pos; fiber-valued mutators (argument fiber given as a tree literal of the matching depth with strictly increasing coordinates, built unowned with the leaf default at the leaf rank and default Fiber at interior ranks): append(c, fiber), __setitem__(pos, fiber) and __setitem__(pos, CoordPayload(c, fiber)) (coordinate and sub-fiber replaced together; refused for its coordinate before anything is released) on interior fibers, extend(fiber) and fiber <<= fiber at any rank; "
                "tensors (owned trees) of depth 1-3. Fiber in-place arithmetic and populate loops are NOT in this model (populate: C05)",
                "the model builds the sub-fibers of an append/extend/__setitem__ argument afresh; in Python they are the caller's objects, "
                "shared with the argument fiber (aliasing through the argument after the call is outside the model); an argument whose "
